@@ -259,6 +259,11 @@ impl<'a> Gen<'a> {
             } else {
                 attrs.push(("style".into(), format!("background-color:{};", c)));
             }
+        } else if self.o.colours && self.rng.chance(1, 8) {
+            // the presentational attributes: color= is the text colour, bgcolor= the background
+            let c = *self.rng.pick(&["red", "#00f", "green", "00aabb", "#0a0b0c"]);
+            let k = if self.rng.chance(1, 2) { "color" } else { "bgcolor" };
+            attrs.push((k.into(), c.to_string()));
         }
     }
 
@@ -323,7 +328,14 @@ impl<'a> Gen<'a> {
                         v.push(H::El("a".into(), attrs, kids));
                     } else {
                         let nw2 = self.rng.range(1, 2);
-                        let w = self.words(nw2);
+                        let mut w = self.words(nw2);
+                        if self.o.odd_links && self.rng.chance(1, 12) {
+                            // a link whose text is its own target
+                            let h = attrs.iter().find(|a| a.0 == "href").map(|a| a.1.clone()).unwrap_or_default();
+                            if h.starts_with("http://h") {
+                                w = h;
+                            }
+                        }
                         v.push(H::El("a".into(), attrs, vec![H::Text(w)]));
                     }
                 }
